@@ -15,8 +15,10 @@ import ast
 import hashlib
 import inspect
 import os
+import random
 import re
 import sys
+import time
 import traceback
 
 sys.path.insert(0, os.path.dirname(os.path.abspath(__file__)))
@@ -513,7 +515,7 @@ def check_item(item):
   """item = (idx, kind, optname, payload).  kind 'planted': payload = [(label, block)], checked together and, on a
   violation, one planting at a time (the witness is then a single planting)."""
   idx, kind, optname, payload = item
-  out = dict(idx=idx, cases=0, runs=0, nontrivial=0, failures=[], conv_errors=0, sample=None)
+  out = dict(idx=idx, cases=0, runs=0, nontrivial=0, failures=[], conv_errors=0, sample=None, conv_samples=[])
   try:
     if kind == 'planted':
       src = opspace.program_of([b for _, b in payload])
@@ -533,7 +535,11 @@ def check_item(item):
         out['runs'] += r1['runs']
         out['nontrivial'] += 1 if r1['nontrivial'] else 0
         out['conv_errors'] += 0 if r1['converted'] else 1
-        for v in real(r1['violations']) + ([v for v in r1['violations'] if v[0] == 'conversion-error']):
+        for v in r1['violations']:
+          if v[0] == 'conversion-error':     # outside C04's quantifier ("in a converted function"): counted, not a failure
+            located = True
+            out['conv_samples'].append('%s [%s]: %s' % (label, optname, v[2][:200]))
+        for v in real(r1['violations']):
           located = True
           out['failures'].append(dict(kind=v[0], sig='%s:%s' % (v[1], label), what=v[2], program=s1,
                                       decisions=v[3], options=optname, planted=label))
@@ -548,13 +554,15 @@ def check_item(item):
     out['runs'] = r['runs']
     out['nontrivial'] = 1 if r['nontrivial'] else 0
     out['conv_errors'] = 0 if r['converted'] else 1
+    out['conv_samples'] += ['program %d [%s]: %s' % (idx, optname, v[2][:200]) for v in r['violations'] if v[0] == 'conversion-error']
     for v in real(r['violations']):
       k, sig = v[0], v[1]
-      if kind == 'd3':
+      if kind == 'd3' and (sig.startswith('native-IfExp') or sig.startswith('mismatch-if_exp')):
         k, sig = 'known-D3', 'nested-ifexp-survives'
       out['failures'].append(dict(kind=k, sig=sig, what=v[2], program=src, decisions=v[3], options=optname))
-    if kind == 'd3':
-      out['failures'] = out['failures'][:1]
+    if kind == 'd3':      # one finding, however many oracles see it
+      d3 = [f for f in out['failures'] if f['kind'] == 'known-D3']
+      out['failures'] = d3[:1] + [f for f in out['failures'] if f['kind'] != 'known-D3']
   except Exception:
     out['failures'].append(dict(kind='harness', sig='crash', what=traceback.format_exc()[-600:], program=str(payload)[:2000],
                                 options=optname))
@@ -577,11 +585,14 @@ def main():
   ap.add_argument('--batch', type=int, default=6)
   ap.add_argument('--options', default=','.join(opspace.OPTION_SETS))
   ap.add_argument('--maxfail', type=int, default=10)
+  ap.add_argument('--budget', type=float, default=None, help='wall-clock seconds after which no further results are awaited')
   a = ap.parse_args()
   thorough = a.tier == 'thorough'
   opts = a.options.split(',')
   nrand = a.random if a.random is not None else (4000 if thorough else 200)
   K = a.k if a.k is not None else (3 if thorough else 2)
+  budget = a.budget if a.budget is not None else (840.0 if thorough else 45.0)
+  t0 = time.time()
   opspace.private_tmp('c04')
   try:
     items = []
@@ -616,12 +627,18 @@ def main():
     items.append((len(items), 'd3', 'plain', opspace.D3_WITNESS))
     d3_planted = list(opspace.planted_cases(a.seed, 'quick', include_d3=True))
     evaluated = runs = nontrivial = conv_errors = 0
-    failures, samples, seen = [], [], set()
+    failures, samples, seen, conv_samples = [], [], set(), []
+    random.Random(a.seed).shuffle(items)     # a run cut short by the budget still samples the whole space
+    done = 0
     for r in harness.pool_map(check_item, items, chunksize=1):
+      done += 1
+      if time.time() - t0 > budget:
+        break
       evaluated += r['cases']
       runs += r['runs']
       nontrivial += r['nontrivial']
       conv_errors += r['conv_errors']
+      conv_samples += r['conv_samples'][:max(0, 5 - len(conv_samples))]
       for f in r['failures']:
         key = (f['kind'], f['sig'])
         if key not in seen and len(failures) < a.maxfail:
@@ -630,7 +647,8 @@ def main():
       if r['sample'] and len(samples) < 2:
         samples.append('%s :: %s' % r['sample'])
     harness.emit(dict(
-        evaluated=evaluated, distinct_nontrivial=nontrivial, dynamic_runs=runs, conversion_errors=conv_errors,
+        evaluated=evaluated, distinct_nontrivial=nontrivial, items_done=done, items_total=len(items),
+        truncated_by_budget=done < len(items), wall_seconds=round(time.time() - t0, 1), dynamic_runs=runs, conversion_errors=conv_errors, conversion_error_samples=conv_samples,
         planted_cases=len(planted), d3_plantings_excluded=len(d3_planted), skeleton_programs=nskel,
         random_programs=nrand - skipped_d3, random_skipped_nested_ifexp=skipped_d3, options=opts,
         rule='each of %d expression constructs planted in each of %d expression contexts and each of %d statement '
